@@ -10,6 +10,7 @@ import FitModel.Generated.ProfileTables
 -- @family typedsm Drv.Typed.hSM
 -- @family typedid Drv.Typed.hID
 -- @family typednil Drv.Typed.hNil
+-- @family typedseq Drv.Typed.hSeq
 /-!
 Driver for the family `typed` (C13): the generic model `Fit.Typed.ofMesg` / `toMesg` instantiated with the
 regenerated per-message tables (`Fit.Gen.Mesgdef.tables`); the standard factory's `CreateField` is read from the
@@ -158,6 +159,20 @@ def nilStruct (args : List String) : String :=
       | .ok st => printStruct T st ++ " " ++ printMessage (toMesg T (facField .std T.num) { includeExpanded := false } st)
   | _ => "bad-op"
 
+/-- `s := NewXxx(&m1); s.Reset(&m2)`: Reset overwrites the whole struct, so only m2 counts (if m1 did not panic) -/
+def resetReuse (args : List String) : String :=
+  match args with
+  | [name, m1, m2] =>
+    match tableOf name, parseMessage m1, parseMessage m2 with
+    | some T, some a, some b =>
+      match ofMesg T a with
+      | .panic => "panic"
+      | .ok _ => match ofMesg T b with
+        | .panic => "panic"
+        | .ok st => printStruct T st
+    | _, _, _ => "bad-op"
+  | _ => "bad-op"
+
 def hMS : Handler := modelOnly (fromMesg true false)
 def hRT : Handler := fun r =>
   match r.mode with
@@ -178,5 +193,6 @@ def hID : Handler := fun r =>
   | .kf => "-"
   | .prop => "n/a"
 def hNil : Handler := modelOnly nilStruct
+def hSeq : Handler := modelOnly resetReuse
 
 end Drv.Typed
